@@ -367,6 +367,15 @@ def run(facts, rep, tier, ctx):
             d = o["key"].split("|")[2]
             if d.startswith("remove_dir_all"):
                 rep.ob(("A/" if w.asyncw else "") + "R07.5", o["fn"], d, o["ok"], o["detail"], o["loc"])
+        # the composite operations of the path type compute with the path strings of whatever filesystem they run on: on an
+        # altroot those are the re-rooted strings, on the filesystem underneath the same strings behind the prefix P.  They
+        # behave the same on both only while (a) the relative part of a walked entry is cut off by the length of the source
+        # path (not by content) and (b) a backend's same-filesystem operation is used only between paths of one instance
+        pr_ = PathRules(facts, w, D)
+        tag_ = ("A/" if w.asyncw else "") + "R07.6"
+        from .c10 import _Prefixed as _Pf
+        pr_.generic_routes(rep if not w.asyncw else _Pf(rep, "A"), "R07.6")
+        pr_.fast_paths(rep if not w.asyncw else _Pf(rep, "A"), "R07.6f")
     n = c06.joiner_rules(facts, rep, D)
     n += c06.accessor_rules(facts, rep, D)
     n += c06.single_impl_rules(facts, rep, D)
